@@ -29,6 +29,7 @@ package main
 
 import (
 	"context"
+	"errors"
 	"fmt"
 	"runtime"
 	"strings"
@@ -55,6 +56,7 @@ type c16Coll struct {
 	userGid map[int64]bool // goroutines of the harness (EndTest callers)
 	cheap   bool           // HDR: exact sum only for samples persisted by harness goroutines
 	bad     string
+	refuse  bool // every Add is recorded and then reported as failed: the recorder's cycle carries an error
 }
 
 func (c *c16Coll) SetMetadata(interface{}) error { return nil }
@@ -104,7 +106,11 @@ func (c *c16Coll) Add(in interface{}) error {
 	}
 	c.mu.Lock()
 	c.samples = append(c.samples, s)
+	refuse := c.refuse
 	c.mu.Unlock()
+	if refuse {
+		return errors.New("c16 collector reports a failed write")
+	}
 	return nil
 }
 
@@ -234,12 +240,13 @@ type c16SysCase struct {
 	reset  bool
 	k      int
 	a, b   [2]int64
+	refuse bool // the collector reports every write as failed (EndTest then returns an error; nothing else changes)
 }
 
 func c16Sys(o *out, cs c16SysCase) (blocked bool) {
 	defer uninstallSched()
 	base := c16EventsGoroutines()
-	coll := &c16Coll{}
+	coll := &c16Coll{refuse: cs.refuse}
 	coll.markUser(goid())
 	ctx, cancel := context.WithCancel(context.Background())
 	defer cancel()
@@ -566,6 +573,78 @@ monitor:
 	return blocked
 }
 
+// ---------------------------------------------------------------- (4) the synchronized wrapper over every recorder
+
+// c16Linger is a collector whose Add lingers: two calls inside at once mean that the recorder in front of it was
+// entered by two goroutines at once
+type c16Linger struct {
+	inside, max, adds int32
+}
+
+func (c *c16Linger) SetMetadata(interface{}) error { return nil }
+func (c *c16Linger) Resolve() ([]byte, error)      { return nil, nil }
+func (c *c16Linger) Reset()                        {}
+func (c *c16Linger) Info() ftdc.CollectorInfo      { return ftdc.CollectorInfo{} }
+func (c *c16Linger) Add(interface{}) error {
+	n := atomic.AddInt32(&c.inside, 1)
+	for {
+		m := atomic.LoadInt32(&c.max)
+		if n <= m || atomic.CompareAndSwapInt32(&c.max, m, n) {
+			break
+		}
+	}
+	atomic.AddInt32(&c.adds, 1)
+	time.Sleep(1500 * time.Microsecond)
+	atomic.AddInt32(&c.inside, -1)
+	return nil
+}
+
+var c16Inner = []string{"raw", "single", "grouped", "histogram", "histsingle", "histgrouped"}
+
+func c16InnerRecorder(kind string, coll ftdc.Collector) events.Recorder {
+	switch kind {
+	case "raw":
+		return events.NewRawRecorder(coll)
+	case "single":
+		return events.NewSingleRecorder(coll)
+	case "grouped":
+		return events.NewGroupedRecorder(coll, 0)
+	case "histogram":
+		return events.NewHistogramRecorder(coll)
+	case "histsingle":
+		return events.NewSingleHistogramRecorder(coll)
+	}
+	return events.NewHistogramGroupedRecorder(coll, 0)
+}
+
+// SER <inner> <G> :: blocked=.. overlap=<most calls inside the wrapped recorder's collector at once, minus one> adds=..
+func c16Serial(o *out, inner string, G int) bool {
+	coll := &c16Linger{}
+	rec := events.NewSynchronizedRecorder(c16InnerRecorder(inner, coll))
+	ok := c16Watch(20*time.Second, func() {
+		var wg sync.WaitGroup
+		for g := 0; g < G; g++ {
+			wg.Add(1)
+			go func() {
+				defer wg.Done()
+				for j := 0; j < 6; j++ {
+					rec.BeginIteration()
+					rec.IncOperations(1)
+					rec.EndIteration(time.Microsecond)
+				}
+			}()
+		}
+		wg.Wait()
+		_ = rec.EndTest()
+	})
+	ov := int(atomic.LoadInt32(&coll.max)) - 1
+	if ov < 0 {
+		ov = 0
+	}
+	o.printf("SER %s %d :: blocked=%d overlap=%d adds=%d\n", inner, G, b2i(!ok), ov, atomic.LoadInt32(&coll.adds))
+	return !ok
+}
+
 func init() {
 	commands["c16"] = func(args []string) error {
 		if len(args) < 1 {
@@ -594,7 +673,8 @@ func init() {
 							tick bool
 							k    int
 						}{{true, 1}, {true, 2}, {true, 3}, {false, 1}, {false, 2}} {
-							cs := c16SysCase{kind: kind, atTick: st.tick, reset: reset, k: st.k}
+							// every other repetition the cycles end with an error in the recorder's catcher
+							cs := c16SysCase{kind: kind, atTick: st.tick, reset: reset, k: st.k, refuse: rep%2 == 1}
 							for i := 0; i < 2; i++ {
 								if kind == "perf" && r.chance(1, 3) {
 									// near the int64 boundary: the sum wraps around
@@ -641,6 +721,14 @@ func init() {
 						if c16Stress(o, r, kind, G, it, per) {
 							nblocked++
 						}
+					}
+				}
+			}
+			// the synchronized wrapper over every recorder that is not thread-safe by itself
+			for _, inner := range c16Inner {
+				for _, G := range []int{2, 4} {
+					if nblocked < 3 && c16Serial(o, inner, G) {
+						nblocked++
 					}
 				}
 			}
